@@ -42,6 +42,83 @@ def real(root: str, p) -> str:
     return os.path.join(root, *[NAMES[c] for c in p]) if p else root
 
 
+def _name(root, p) -> str:
+    return root(p) if callable(root) else real(root, p)
+
+
+def normalise(spelled: str, cwd: str) -> str:
+    """Independent lexical normaliser (no os.path): absolute, no '.', '..', '//' or trailing slash."""
+    if not spelled.startswith("/"):
+        spelled = cwd + "/" + spelled
+    out = []
+    for part in spelled.split("/"):
+        if part in ("", "."):
+            continue
+        if part == "..":
+            if out:
+                out.pop()
+        else:
+            out.append(part)
+    return "/" + "/".join(out)
+
+
+SPELL_KINDS = ["plain", "dot", "slashes", "trail", "dd", "ddc", "ddt", "rel"]
+TRAIL_OK = ("Mkdir", "Makedirs", "Rmdir", "Rmtree")
+
+
+class Speller:
+    """Maps the model's (normalised) path arguments of one operation to other spellings of the same path:
+    'dot' (a '.' component), 'slashes' ('//'), 'trail' (trailing slash, directory operations only), 'dd' (a
+    detour down into an existing directory of the sandbox and back up with '..'), 'ddc' (the same through
+    a directory created during the execution), 'ddt' (through the isolation's private temp dir), 'rel'
+    (relative to the working directory).  Detours only go through directories that exist, so without
+    symlinks the kernel resolves every spelling to the normal form; the last component is always literal."""
+
+    def __init__(self, root, specs, dirs_all, dirs_created, tmpdir):
+        self.root, self.specs, self.k = root, list(specs or []), 0
+        self.dirs_all, self.dirs_created, self.tmpdir = dirs_all, dirs_created, tmpdir
+        self.used = []
+
+    def __call__(self, p):
+        spec = self.specs[self.k] if self.k < len(self.specs) else ("plain", 0)
+        self.k += 1
+        s = self.spell(p, spec[0], int(spec[1]))
+        assert normalise(s, os.getcwd()) == real(self.root, p), (s, real(self.root, p))
+        self.used.append(spec[0] if s != real(self.root, p) else "plain")
+        return s
+
+    def spell(self, p, kind, salt):
+        base = real(self.root, p)
+        if not p or kind == "plain":
+            return base
+        comps = [NAMES[c] for c in p]
+        if kind == "dot":
+            i = salt % len(comps)
+            return self.root + "/" + "/".join(comps[:i] + ["."] + comps[i:])
+        if kind == "slashes":
+            i = salt % len(comps)
+            return self.root + "/" + "/".join(comps[:i] + [""] + comps[i:])
+        if kind == "trail":
+            return base + "/"
+        if kind in ("dd", "ddc"):
+            cands = self.dirs_created if (kind == "ddc" and self.dirs_created) else self.dirs_all
+            for off in range(len(cands)):
+                d = cands[(salt + off) % len(cands)]
+                c = 0
+                while c < len(d) and c < len(p) and d[c] == p[c]:
+                    c += 1
+                c = min(c, len(p) - 1)
+                if c < len(d):  # otherwise d is an ancestor of the target: no detour
+                    parts = [NAMES[x] for x in d] + [".."] * (len(d) - c) + comps[c:]
+                    return self.root + "/" + "/".join(parts)
+            return base
+        if kind == "ddt":
+            return self.tmpdir + "/" + os.path.relpath(self.root, self.tmpdir) + "/" + "/".join(comps)
+        if kind == "rel":
+            return os.path.relpath(base, os.getcwd())
+        raise AssertionError(kind)
+
+
 def build(root: str, init):
     os.makedirs(root)
     for p, n in sorted(init, key=lambda e: len(e[0])):
@@ -87,12 +164,14 @@ def excluded(root: str, op) -> bool:
     return False
 
 
-def perform(root: str, op):
+def perform(root, op):
+    """`root` is the sandbox root (plain spelling) or a callable mapping a model path to the string that
+    is handed to the implementation (see Speller); path arguments are named in the order src, dst."""
     kind = op[0]
     fl = op[-1]
     if kind == "Open":
         _, p, m, data, _ = op
-        rp = real(root, p)
+        rp = _name(root, p)
         if fl == "os.open":
             fd = os.open(rp, OS_FLAGS[m])
             try:
@@ -126,7 +205,7 @@ def perform(root: str, op):
 
         _, p, fl_, data, _ = op
         try:
-            fd = os.open(real(root, p), os_flags(fl_), 0o644)
+            fd = os.open(_name(root, p), os_flags(fl_), 0o644)
         except OSError as e:
             if fl_[5] and e.errno == errno.EOPNOTSUPP:
                 raise Unsupported from e
@@ -137,21 +216,21 @@ def perform(root: str, op):
         finally:
             os.close(fd)
     elif kind == "Touch":
-        Path(real(root, op[1])).touch()
+        Path(_name(root, op[1])).touch()
     elif kind == "Mkdir":
         _, p, eo, _ = op
         if fl == "os.mkdir":
-            os.mkdir(real(root, p))
+            os.mkdir(_name(root, p))
         else:
-            Path(real(root, p)).mkdir(exist_ok=eo)
+            Path(_name(root, p)).mkdir(exist_ok=eo)
     elif kind == "Makedirs":
         _, p, eo, _ = op
         if fl == "os.makedirs":
-            os.makedirs(real(root, p), exist_ok=eo)
+            os.makedirs(_name(root, p), exist_ok=eo)
         else:
-            Path(real(root, p)).mkdir(parents=True, exist_ok=eo)
+            Path(_name(root, p)).mkdir(parents=True, exist_ok=eo)
     elif kind == "Rename":
-        s, d = real(root, op[1]), real(root, op[2])
+        s, d = _name(root, op[1]), _name(root, op[2])
         if fl == "os.rename":
             os.rename(s, d)
         elif fl == "os.replace":
@@ -161,13 +240,13 @@ def perform(root: str, op):
         else:
             Path(s).replace(Path(d))
     elif kind == "CopyFile":
-        shutil.copyfile(real(root, op[1]), real(root, op[2]))
+        shutil.copyfile(_name(root, op[1]), _name(root, op[2]))
     elif kind == "Copy":
-        (shutil.copy if fl == "copy" else shutil.copy2)(real(root, op[1]), real(root, op[2]))
+        (shutil.copy if fl == "copy" else shutil.copy2)(_name(root, op[1]), _name(root, op[2]))
     elif kind == "Move":
-        shutil.move(real(root, op[1]), real(root, op[2]))
+        shutil.move(_name(root, op[1]), _name(root, op[2]))
     elif kind == "Remove":
-        p = real(root, op[1])
+        p = _name(root, op[1])
         if fl == "os.remove":
             os.remove(p)
         elif fl == "os.unlink":
@@ -175,25 +254,27 @@ def perform(root: str, op):
         else:
             Path(p).unlink()
     elif kind == "Rmdir":
-        p = real(root, op[1])
+        p = _name(root, op[1])
         if fl == "os.rmdir":
             os.rmdir(p)
         else:
             Path(p).rmdir()
     elif kind == "Rmtree":
-        shutil.rmtree(real(root, op[1]))
+        shutil.rmtree(_name(root, op[1]))
     else:
         raise AssertionError(kind)
 
 
-def run_case(root: str, init, ops, tmp_sibling: bool = False):
+def run_case(root: str, init, ops, tmp_sibling: bool = False, spell=None):
     """Execute ops inside a real FilesystemIsolation over a fresh sandbox.
 
     The isolation's private temp dir is created inside the caller's scratch directory (next to `root`).
     With `tmp_sibling` the sandbox root is `<private temp dir>_sb`: every sandbox path then has the temp
     root as a plain string prefix without lying below it.
 
-    Returns dict(before, steps=[(op, res, created, tree)], after, skipped, stray)."""
+    `spell`: per operation a list of (kind, salt) for its path arguments (see Speller); None = plain.
+
+    Returns dict(before, steps=[(op, res, created, tree)], after, skipped, stray, spelled)."""
     import pynguin.configuration as config
     from pynguin.utils.fs_isolation import FilesystemIsolation
 
@@ -213,14 +294,28 @@ def run_case(root: str, init, ops, tmp_sibling: bool = False):
     shutil.rmtree(root, ignore_errors=True)
     build(root, init)
     before = tree(root)
-    steps, skipped, stray = [], 0, []
+    steps, skipped, stray, spelled = [], 0, [], []
+    cur = before
     with iso:
-        for op in ops:
+        for k, op in enumerate(ops):
             if excluded(root, op):
                 skipped += 1
                 continue
+            dirs_all = [q for q, n in cur if n == "D"]
+            isd = set(dirs_all)
+            dirs_created = []
+            for c in iso._created:
+                parts = os.path.relpath(c, root).split(os.sep)
+                if all(x in NAMES for x in parts):
+                    q = tuple(NAMES.index(x) for x in parts)
+                    if q in isd:
+                        dirs_created.append(q)
+            namer = Speller(root, spell[k] if spell else None, dirs_all, sorted(dirs_created), iso._tmp.name)
             try:
-                perform(root, op)
+                try:
+                    perform(namer, op)
+                finally:
+                    spelled += namer.used
                 r = "ROk"
             except Unsupported:
                 skipped += 1
@@ -237,10 +332,11 @@ def run_case(root: str, init, ops, tmp_sibling: bool = False):
                     stray.append(c)
                 else:
                     cr.append(tuple(NAMES.index(x) for x in parts))
-            steps.append((op, r, sorted(cr), tree(root)))
+            cur = tree(root)
+            steps.append((op, r, sorted(cr), cur))
     after = tree(root)
     shutil.rmtree(root, ignore_errors=True)
-    return {"before": before, "steps": steps, "after": after, "skipped": skipped, "stray": stray}
+    return {"before": before, "steps": steps, "after": after, "skipped": skipped, "stray": stray, "spelled": spelled}
 
 
 # ------------------------------------------------------------------------------------------------
@@ -378,6 +474,26 @@ def gen_ops(rng, init, n):
         else:
             ops.append(("Rmtree", g.some(rng, 0.8), "rmtree"))
     return ops
+
+
+def n_paths(op) -> int:
+    return 2 if op[0] in ("Rename", "CopyFile", "Copy", "Move") else 1
+
+
+def gen_spell(rng, ops):
+    out = []
+    for op in ops:
+        specs = []
+        for _ in range(n_paths(op)):
+            if rng.random() < 0.5:
+                specs.append(("plain", 0))
+                continue
+            kinds = ["dot", "slashes", "dd", "dd", "ddc", "ddc", "ddc", "ddt", "rel", "rel"]
+            if op[0] in TRAIL_OK:
+                kinds.append("trail")
+            specs.append((rng.choice(kinds), rng.randrange(1000)))
+        out.append(specs)
+    return out
 
 
 def op_kind(op) -> str:
